@@ -9,12 +9,12 @@ from .lib import fail, live_exits
 FROM_FILE = "chartparse.chart.Chart.from_file"
 
 
-def check_all_sections(ctx, r):
+def check_all_sections(ctx, r, strict=True):
     """All three track kinds: own lines -> dispatcher -> per-kind builder; third builder argument = tempo map /
     resolution.  Returns {which: info}."""
     out = {}
     for which in ("instrument", "sync", "global"):
-        info = check_track_sections(ctx, r, which)
+        info = check_track_sections(ctx, r, which, strict=strict)
         out[which] = info
         c = ctx.cls({"instrument": "chartparse.instrument.InstrumentTrack", "sync": "chartparse.sync.SyncTrack",
                      "global": "chartparse.globalevents.GlobalEventsTrack"}[which])
